@@ -33,7 +33,8 @@ RULE = ("SVC: every schedule (tuple of 1+epochs permutations) enumerated by TLC 
         "is narrow relative to eps (constant, range <= eps, eps < range <= 2 eps skewed with 1-2 outliers at one "
         "end, exactly 2 eps, 2 eps + one step, eps = 0), for all kernels.  Kernels: exhaustive pairs over {-2..2}^2 for 15 kernel "
         "settings (polynomial degrees 1, 2, 3 and the fractional 1/2, 3/2, 5/2, 1/4, 3/4, 5/4), random vectors, Gram "
-        "matrices n<=5/6; every 12th SVC and every 16th SVR fit uses a fractional-degree polynomial kernel on "
+        "matrices n<=5/6; RBF evaluations and Gram matrices are repeated with a common offset 2^20 / 2^27 / 2^30 "
+        "on every coordinate and judged on the small integers (translation invariance); every 12th SVC and every 16th SVR fit uses a fractional-degree polynomial kernel on "
         "non-negative features.  A fit is non-trivial when some coefficient is at a bound "
         "(|w| >= C - 2^-15) and another strictly inside (2^-15 < |w| < C - 2^-15); distinct = distinct `in` "
         "objects (data, labels, C, kernel, epochs, tol, schedule) among the non-trivial fits")
@@ -72,6 +73,8 @@ def key_of(e, clause):
             feats.append("n>=91")
         if i.get("api"):
             feats.append("api traits")
+        if i.get("off"):
+            feats.append("offset=2^%s" % i["off"])
         if i.get("lab", "int") != "int":
             feats.append("labels=%s" % i["lab"])
         if e.get("status") != "ok":
@@ -137,6 +140,7 @@ MUST_HIT = ("SvcFit", "SvcSched", "SvcRand", "SvcUnseeded", "Svc_linear", "Svc_r
             "KRoot2", "KRoot4", "KRootUndefined", "FitRootClosed",
             "SvrNarrowBand", "SvrBandSkewed", "SvrConstantTargets", "SvrNoSv", "SvrNoSvKKT",
             "SvcApi", "SvrApi", "SvcLarge", "SvrLargeDense",
+            "RbfOffset", "RbfGramOffset", "SvcRbfOffset", "SvrRbfOffset",
             "SvcFloatLabels", "SvcLab_unit", "SvcLab_zero", "SvcLab_eps", "SvcLab_adjacent", "SvcLab_huge",
             "SvcLab_tiny", "SvcLab_negzero",
             "SvcBatch", "SvcBatchOver256", "SvcBatchOver1024", "SvrBatch", "SvrBatchOver256", "SvrBatchOver1024",
